@@ -52,12 +52,10 @@ def conc_engine(run, tier, seed):
     out = os.path.join(core.BUILD, "eng-conc")
     os.makedirs(out, exist_ok=True)
     with core.Lock():
-        core.sh("cp /repo/go.sum go.sum", cwd=src)
-        env = dict(core.GOENV, CGO_ENABLED="1")
-        p = core.sh(["go", "build", "-race", "-o", os.path.join(out, "hc"), "."], cwd=src, env=env, check=False)
+        p = core.go_build(src, os.path.join(out, "hc"), race=True)
         race = p.returncode == 0
         if not race:
-            p = core.sh(["go", "build", "-o", os.path.join(out, "hc"), "."], cwd=src, env=core.GOENV, check=False)
+            p = core.go_build(src, os.path.join(out, "hc"))
             if p.returncode != 0:
                 run.violations.append({"kind": "build", "what": "concurrency harness does not build against /repo: " + (p.stdout or b"").decode()[-300:],
                                        "case": None, "op": None, "case_text": "", "expected": None, "actual": None, "step": False})
